@@ -46,6 +46,8 @@ pub struct EngCfg {
     pub index_wrap: bool,
     pub replay_choices: Option<Vec<u8>>,
     pub record_choices: bool,
+    /// Part of the systematic single-pre-emption sweep (evidence only).
+    pub sweep: bool,
 }
 
 #[derive(Clone, Debug)]
@@ -89,6 +91,7 @@ pub struct ExecResult {
     pub notes: Vec<String>,
     pub max_vtime: u64,
     pub alloc_refused: u64,
+    pub forever_observed: u64,
 }
 
 struct WireFrame {
@@ -132,7 +135,11 @@ fn block_on<M: crate::sched::Monitor + 'static, F: Future>(ctx: &Ctx<M>, mut fut
     loop {
         match fut.as_mut().poll(&mut cx) {
             Poll::Ready(v) => return Some(v),
-            Poll::Pending => match ctx.block() {
+            Poll::Pending => match {
+                // the poll may have armed a timer: let the clock know
+                ctx.wake_actor(A_CLOCK);
+                ctx.block()
+            } {
                 Blocked::Woken => {}
                 Blocked::Stuck => return None,
             },
@@ -158,10 +165,7 @@ fn run_n<const N: usize>(cfg: &EngCfg, seed: u64) -> ExecResult {
     vclock::reset(1_000);
     let storage = PduStorage::<N, FRAME_MAX>::new();
     let (tx, rx, pdu_loop) = storage.verif_try_split_with_len(cfg.frame_len).expect("split");
-    let (pdu_to, retry) = match &cfg.deadlines {
-        Some(d) => (Duration::from_micros(d.timeout_us), if d.retries == 0 { RetryBehaviour::None } else if d.retries == usize::MAX { RetryBehaviour::Forever } else { RetryBehaviour::Count(d.retries) }),
-        None => (Duration::from_secs(100_000), RetryBehaviour::None),
-    };
+    let (pdu_to, retry) = (Duration::from_secs(100_000), RetryBehaviour::None);
     let md = MainDevice::new(pdu_loop, Timeouts { pdu: pdu_to, ..Timeouts::default() }, MainDeviceConfig { dc_static_sync_iterations: 0, retry_behaviour: retry });
     let pl = ev::maindevice_pdu_loop(&md);
 
@@ -219,7 +223,7 @@ fn run_n<const N: usize>(cfg: &EngCfg, seed: u64) -> ExecResult {
             s.spawn(move || {
                 let ctx = Ctx::enter(sched, A_APP0 + a);
                 guarded(&ctx, "app", || app_actor(&ctx, md, &shared, &cfg, a, seed));
-                shared.lock().unwrap().apps_done += 1;
+                lk(&shared).apps_done += 1;
                 // Let TX/RX/clock notice.
                 ctx.wake_actor(A_TX);
                 ctx.wake_actor(A_RX);
@@ -232,7 +236,7 @@ fn run_n<const N: usize>(cfg: &EngCfg, seed: u64) -> ExecResult {
 
     // Quiescent: every handle is gone. Conservation check (C03/C06: no slot lost for good).
     let final_states = states(pl);
-    let mut res = std::mem::take(&mut shared.lock().unwrap().res);
+    let mut res = std::mem::take(&mut lk(&shared).res);
     sched.with(|g| {
         res.violations.append(&mut g.mon.violations);
         res.sched_hash = g.sched_hash;
@@ -278,7 +282,7 @@ fn tx_actor(ctx: &Ctx<PlMon>, tx: &mut PduTx<'_>, shared: &Arc<Mutex<Shared>>, c
         while let Some(f) = tx.next_sendable_frame() {
             let mut captured = vec![];
             let fail = {
-                let mut sh = shared.lock().unwrap();
+                let mut sh = lk(shared);
                 let r = sh.rng.as_mut().unwrap();
                 if r.below(100) < cfg.send_fail_pct { 1 + r.below(2) } else { 0 }
             };
@@ -290,7 +294,8 @@ fn tx_actor(ctx: &Ctx<PlMon>, tx: &mut PduTx<'_>, shared: &Arc<Mutex<Shared>>, c
                 if fail != 0 && !failed_once.insert(key) {
                     fail = 0;
                 }
-                if early && fail == 0 {
+                // only the victims' frames (tag byte 3 = task number + 1 > 1) are answered early
+                if early && fail == 0 && b.len() >= 22 && b[21] > 1 {
                     // the response is on the wire before TX even returns
                     put_on_wire(ctx, shared, cfg, &captured);
                 }
@@ -304,20 +309,20 @@ fn tx_actor(ctx: &Ctx<PlMon>, tx: &mut PduTx<'_>, shared: &Arc<Mutex<Shared>>, c
             match res {
                 Ok(_) => {
                     {
-                        let mut sh = shared.lock().unwrap();
+                        let mut sh = lk(shared);
                         let now = vclock::now();
-                        sh.tx_log.push((captured[17], captured.clone(), now));
+                        sh.tx_log.push((captured.get(17).copied().unwrap_or(0), captured.clone(), now));
                     }
-                    if !early {
+                    if !(early && captured.len() >= 22 && captured[21] > 1) {
                         put_on_wire(ctx, shared, cfg, &captured);
                     }
                 }
                 Err(_) => {
-                    shared.lock().unwrap().res.send_failures += 1;
+                    lk(shared).res.send_failures += 1;
                 }
             }
         }
-        if shared.lock().unwrap().apps_done == cfg.apps {
+        if lk(shared).apps_done == cfg.apps {
             break;
         }
         if ctx.block() == Blocked::Stuck {
@@ -327,9 +332,11 @@ fn tx_actor(ctx: &Ctx<PlMon>, tx: &mut PduTx<'_>, shared: &Arc<Mutex<Shared>>, c
 }
 
 fn put_on_wire(ctx: &Ctx<PlMon>, shared: &Arc<Mutex<Shared>>, cfg: &EngCfg, tx_bytes: &[u8]) {
-    let mut sh = shared.lock().unwrap();
+    let mut sh = lk(shared);
     if let Some(d) = &cfg.deadlines {
-        if sh.rng.as_mut().unwrap().below(100) < d.lose_pct {
+        // only requests of the victim tasks (tag byte 3 = task number + 1) are lost
+        let victim_frame = tx_bytes.len() >= 22 && tx_bytes[21] > 1;
+        if victim_frame && sh.rng.as_mut().unwrap().below(100) < d.lose_pct {
             sh.res.lost += 1;
             return;
         }
@@ -349,7 +356,7 @@ fn put_on_wire(ctx: &Ctx<PlMon>, shared: &Arc<Mutex<Shared>>, cfg: &EngCfg, tx_b
 fn rx_actor(ctx: &Ctx<PlMon>, rx: &mut PduRx<'_>, shared: &Arc<Mutex<Shared>>, cfg: &EngCfg) {
     loop {
         let next = {
-            let mut sh = shared.lock().unwrap();
+            let mut sh = lk(shared);
             if sh.wire.is_empty() {
                 None
             } else {
@@ -391,7 +398,7 @@ fn rx_actor(ctx: &Ctx<PlMon>, rx: &mut PduRx<'_>, shared: &Arc<Mutex<Shared>>, c
                 ctx.yield_now();
             }
             None => {
-                if shared.lock().unwrap().apps_done == cfg.apps {
+                if lk(shared).apps_done == cfg.apps {
                     break;
                 }
                 if ctx.block() == Blocked::Stuck {
@@ -404,10 +411,10 @@ fn rx_actor(ctx: &Ctx<PlMon>, rx: &mut PduRx<'_>, shared: &Arc<Mutex<Shared>>, c
 
 fn clock_actor(ctx: &Ctx<PlMon>, shared: &Arc<Mutex<Shared>>, cfg: &EngCfg) {
     loop {
-        if shared.lock().unwrap().apps_done == cfg.apps {
+        if lk(shared).apps_done == cfg.apps {
             break;
         }
-        match vclock::next_deadline() {
+        match vclock::next_deadline().filter(|t| *t < vclock::now() + 10_000_000) {
             Some(t) => {
                 vclock::advance_to(t);
                 ctx.yield_now();
@@ -425,7 +432,8 @@ struct ReqSpec {
     cmds: Vec<(usize, u32, Vec<u8>)>, // kind, tag, payload sent
 }
 
-fn verify_views(ctx: &Ctx<PlMon>, pl: &PduLoop<'_>, held: &mut Vec<HeldView<'_>>, shared: &Arc<Mutex<Shared>>, who: &str) {
+#[allow(non_snake_case)]
+fn verify_views(ctx: &Ctx<PlMon>, pl: &PduLoop<'_>, held: &mut Vec<HeldView<'_>>, shared: &Arc<Mutex<Shared>>, who: &str, prefix: &str) {
     let _ = pl;
     for h in held.iter_mut() {
         ctx.mon(|m| m.open_window(h.slot, ctx.id, Party::Reader));
@@ -438,19 +446,20 @@ fn verify_views(ctx: &Ctx<PlMon>, pl: &PduLoop<'_>, held: &mut Vec<HeldView<'_>>
         ctx.mon(|m| m.close_window(h.slot, ctx.id, Party::Reader));
         let mut got = first;
         got.extend(second);
-        shared.lock().unwrap().res.views_checked += 1;
+        lk(shared).res.views_checked += 1;
         if got_len != want.len() || got != want {
             let untrimmed_tail = &h.expect[h.trimmed.min(h.expect.len())..];
             let sig = if h.trimmed > 0 && got_len == h.expect.len() && got.starts_with(untrimmed_tail) {
                 // pointer advanced, length not reduced: the view now runs past the data area
-                "C01:trim-front-keeps-length"
+                "trim-front-keeps-length"
             } else if h.age == 0 {
-                "C01:view-wrong-bytes"
+                "view-wrong-bytes"
             } else {
-                "C01:held-view-changed"
+                "held-view-changed"
             };
             let _ = who;
-            ctx.mon(|m| m.violation(sig, format!("view of slot {} (age {}, trimmed {}) shows len {} {:02x?}, expected len {} {:02x?}", h.slot, h.age, h.trimmed, got_len, &got[..got.len().min(24)], want.len(), &want[..want.len().min(24)])));
+            let P = prefix;
+            ctx.mon(|m| m.violation(&format!("{P}:{sig}"), format!("view of slot {} (age {}, trimmed {}) shows len {} {:02x?}, expected len {} {:02x?}", h.slot, h.age, h.trimmed, got_len, &got[..got.len().min(24)], want.len(), &want[..want.len().min(24)])));
             // report once
             h.expect = {
                 let mut e = vec![0; h.trimmed.min(h.expect.len())];
@@ -464,6 +473,12 @@ fn verify_views(ctx: &Ctx<PlMon>, pl: &PduLoop<'_>, held: &mut Vec<HeldView<'_>>
 
 fn app_actor<'a>(ctx: &Ctx<PlMon>, md: &'a MainDevice<'a>, shared: &Arc<Mutex<Shared>>, cfg: &EngCfg, a: usize, seed: u64) {
     let pl = ev::maindevice_pdu_loop(md);
+    // In deadline workloads task 0 is the competitor: no deadline, never abandons; it must still
+    // get exactly its own responses whatever happens to the other tasks' requests.
+    #[allow(non_snake_case)]
+    let P: &str = if cfg.mode == Mode::Deadlines { "C06" } else { "C01" };
+    let victim = cfg.deadlines.is_some() && a > 0;
+    let my_deadlines = if victim { cfg.deadlines.clone() } else { None };
     let mut rng = Rng::new(seed).fork(1000 + a as u64);
     let cap = cfg.frame_len - 28;
     let mut held: Vec<HeldView<'a>> = vec![];
@@ -485,7 +500,7 @@ fn app_actor<'a>(ctx: &Ctx<PlMon>, md: &'a MainDevice<'a>, shared: &Arc<Mutex<Sh
             break;
         }
         // ---- build the request
-        let use_public = rng.below(100) < cfg.public_api_pct;
+        let use_public = !victim && rng.below(100) < cfg.public_api_pct;
         let nd = if use_public { 1 } else { 1 + rng.usize_below(cfg.max_dgrams) };
         let mut spec = ReqSpec { cmds: vec![] };
         let mut room = cap;
@@ -501,7 +516,7 @@ fn app_actor<'a>(ctx: &Ctx<PlMon>, md: &'a MainDevice<'a>, shared: &Arc<Mutex<Sh
             let is_write = kind >= 6;
             let payload = if is_write { rng.bytes(len) } else { vec![0; len] };
             spec.cmds.push((kind, tag, payload));
-            shared.lock().unwrap().tags.insert(tag, me);
+            lk(shared).tags.insert(tag, me);
             if room < len + 12 {
                 break;
             }
@@ -538,26 +553,26 @@ fn app_actor<'a>(ctx: &Ctx<PlMon>, md: &'a MainDevice<'a>, shared: &Arc<Mutex<Sh
             let _ = kind;
             match out {
                 None => {
-                    ctx.mon(|m| m.violation("C01:request-never-completed:public", format!("{} request tag {tag:#x}: nobody left to wake the caller", names_of(a))));
+                    ctx.mon(|m| m.violation(&format!("{P}:request-never-completed:public"), format!("{} request tag {tag:#x}: nobody left to wake the caller", names_of(a))));
                     break;
                 }
                 Some(Err(Error::Pdu(PduError::SwapState))) => {
                     // Storage full: legitimate while other tasks / held views own every slot
                     // (whether "full" is genuine is C03's question).
-                    shared.lock().unwrap().res.alloc_refused += 1;
+                    lk(shared).res.alloc_refused += 1;
                     ctx.yield_now();
                     release_views!(0);
                 }
                 Some(Err(e)) => {
                     let sig = match &e {
-                        Error::WorkingCounter { .. } => "C01:wrong-response:wkc:public".to_string(),
-                        Error::Timeout(_) => "C01:unexpected-timeout:public".to_string(),
-                        other => format!("C01:request-failed:public:{}", variant(other)),
+                        Error::WorkingCounter { .. } => format!("{P}:wrong-response:wkc:public"),
+                        Error::Timeout(_) => format!("{P}:unexpected-timeout:public"),
+                        other => format!("{P}:request-failed:public:{}", variant(other)),
                     };
                     ctx.mon(|m| m.violation(&sig, format!("{} request tag {tag:#x} failed with {e:?}", names_of(a))));
                 }
                 Some(Ok(view)) => {
-                    shared.lock().unwrap().res.completed += 1;
+                    lk(shared).res.completed += 1;
                     let slot = find_slot(pl, view.as_ptr()).unwrap_or(0);
                     let token = ctx.mon(|m| m.add_holder(slot, me, HolderKind::View));
                     held.push(HeldView { view, expect: want, token, slot, age: 0, trimmed: 0 });
@@ -569,7 +584,7 @@ fn app_actor<'a>(ctx: &Ctx<PlMon>, md: &'a MainDevice<'a>, shared: &Arc<Mutex<Sh
                 Ok(f) => f,
                 Err(_) => {
                     // Storage full is legitimate when other tasks / held views occupy all slots.
-                    shared.lock().unwrap().res.alloc_refused += 1;
+                    lk(shared).res.alloc_refused += 1;
                     ctx.yield_now();
                     release_views!(0);
                     continue;
@@ -597,11 +612,11 @@ fn app_actor<'a>(ctx: &Ctx<PlMon>, md: &'a MainDevice<'a>, shared: &Arc<Mutex<Sh
                     ctx.mon(|m| m.remove_holder(slot, tok_created));
                     drop(frame);
                 });
-                shared.lock().unwrap().res.abandoned += 1;
+                lk(shared).res.abandoned += 1;
                 ctx.yield_now();
                 continue;
             }
-            let (to, retries) = match &cfg.deadlines {
+            let (to, retries) = match &my_deadlines {
                 Some(d) => (Duration::from_micros(d.timeout_us), d.retries),
                 None => (Duration::from_secs(100_000), 0),
             };
@@ -611,11 +626,12 @@ fn app_actor<'a>(ctx: &Ctx<PlMon>, md: &'a MainDevice<'a>, shared: &Arc<Mutex<Sh
             });
             let mut fut = Some(Box::pin(ev::mark_sendable(frame, pl, to, retries)));
             let abandon = rng.below(100) < cfg.abandon_pct;
-            let abandon_any = cfg.deadlines.as_ref().is_some_and(|d| rng.below(100) < d.abandon_any_pct);
+            let abandon_any = my_deadlines.as_ref().is_some_and(|d| rng.below(100) < d.abandon_any_pct);
             let abandon_after = rng.usize_below(4);
             let waker = ctx.waker();
             let mut cx = Context::from_waker(&waker);
             let mut polls = 0;
+            let t_start = vclock::now();
             let outcome: Option<Result<ev::ReceivedFrame<'a>, Error>> = loop {
                 match fut.as_mut().unwrap().as_mut().poll(&mut cx) {
                     Poll::Ready(v) => break Some(v),
@@ -625,6 +641,16 @@ fn app_actor<'a>(ctx: &Ctx<PlMon>, md: &'a MainDevice<'a>, shared: &Arc<Mutex<Sh
                 if (abandon || abandon_any) && polls > abandon_after {
                     break None;
                 }
+                // Bounded observation: RetryBehaviour::Forever is watched for 8 periods, and an
+                // execution over its step budget winds down.
+                let forever_done = my_deadlines.as_ref().is_some_and(|d| d.retries == usize::MAX && vclock::now() > t_start + 8 * d.timeout_us);
+                if forever_done || ctx.over_budget() {
+                    if forever_done {
+                        lk(shared).res.forever_observed += 1;
+                    }
+                    break None;
+                }
+                ctx.wake_actor(A_CLOCK);
                 if abandon || abandon_any {
                     // don't sleep: the point is to abandon at a random moment
                     ctx.yield_now();
@@ -634,7 +660,7 @@ fn app_actor<'a>(ctx: &Ctx<PlMon>, md: &'a MainDevice<'a>, shared: &Arc<Mutex<Sh
                     Blocked::Woken => {}
                     Blocked::Stuck => {
                         let st = ctx.mon(|m| m.shadow[slot]);
-                        ctx.mon(|m| m.violation(&format!("C01:request-never-completed:raw:{}", state_name(st)), format!("{} request in slot {slot} (state {}): nobody left to wake the caller", names_of(a), state_name(st))));
+                        ctx.mon(|m| m.violation(&format!("{P}:request-never-completed:raw:{}", state_name(st)), format!("{} request in slot {slot} (state {}): nobody left to wake the caller", names_of(a), state_name(st))));
                         break None;
                     }
                 }
@@ -671,23 +697,23 @@ fn app_actor<'a>(ctx: &Ctx<PlMon>, md: &'a MainDevice<'a>, shared: &Arc<Mutex<Sh
                         ctx.mon(|m| m.remove_holder(slot, tok_fut));
                         drop(f);
                     }
-                    shared.lock().unwrap().res.abandoned += 1;
+                    lk(shared).res.abandoned += 1;
                 }
                 Some(Err(e)) => {
                     ctx.mon(|m| m.remove_holder(slot, tok_fut));
                     drop(fut);
-                    match (&e, &cfg.deadlines) {
+                    match (&e, &my_deadlines) {
                         (Error::Timeout(_), Some(_)) => {
-                            shared.lock().unwrap().res.timeouts += 1;
+                            lk(shared).res.timeouts += 1;
                         }
                         _ => {
-                            ctx.mon(|m| m.violation(&format!("C01:request-failed:raw:{}", variant(&e)), format!("{} request in slot {slot} failed with {e:?}", names_of(a))));
+                            ctx.mon(|m| m.violation(&format!("{P}:request-failed:raw:{}", variant(&e)), format!("{} request in slot {slot} failed with {e:?}", names_of(a))));
                         }
                     }
                 }
                 Some(Ok(rf)) => {
                     drop(fut.take());
-                    shared.lock().unwrap().res.completed += 1;
+                    lk(shared).res.completed += 1;
                     let tok_rf = ctx.mon(|m| {
                         m.remove_holder(slot, tok_fut);
                         m.add_holder(slot, me, HolderKind::Received)
@@ -711,14 +737,14 @@ fn app_actor<'a>(ctx: &Ctx<PlMon>, md: &'a MainDevice<'a>, shared: &Arc<Mutex<Sh
                                     Err(e) => {
                                         ctx.mon(|m| {
                                             m.remove_holder(slot, tok_view.unwrap());
-                                            m.violation("C01:wrong-response:wkc:raw", format!("tag {tag:#x}: {e:?}"))
+                                            m.violation(&format!("{P}:wrong-response:wkc:raw"), format!("tag {tag:#x}: {e:?}"))
                                         });
                                         continue;
                                     }
                                 };
                                 held.push(HeldView { view, expect: resp_bytes(tag, len), token: tok_view.unwrap(), slot, age: 0, trimmed: 0 });
                             }
-                            Err(e) => ctx.mon(|m| m.violation(&format!("C01:response-unreadable:first_pdu:{}", variant(&e)), format!("tag {tag:#x}: {e:?}"))),
+                            Err(e) => ctx.mon(|m| m.violation(&format!("{P}:response-unreadable:first_pdu:{}", variant(&e)), format!("tag {tag:#x}: {e:?}"))),
                         }
                     } else {
                         // Views produced by the iterator are (by the crate-internal contract
@@ -731,7 +757,7 @@ fn app_actor<'a>(ctx: &Ctx<PlMon>, md: &'a MainDevice<'a>, shared: &Arc<Mutex<Sh
                         while let Some(item) = it.next() {
                             n += 1;
                             let Some((tag, len)) = accepted.get(i).copied() else {
-                                ctx.mon(|m| m.violation("C01:extra-datagram-in-response", format!("iterator yielded item {i} but only {} were pushed", accepted.len())));
+                                ctx.mon(|m| m.violation(&format!("{P}:extra-datagram-in-response"), format!("iterator yielded item {i} but only {} were pushed", accepted.len())));
                                 break;
                             };
                             i += 1;
@@ -740,59 +766,82 @@ fn app_actor<'a>(ctx: &Ctx<PlMon>, md: &'a MainDevice<'a>, shared: &Arc<Mutex<Sh
                                     let view = match view.wkc(resp_wkc(tag)) {
                                         Ok(v) => v,
                                         Err(e) => {
-                                            ctx.mon(|m| m.violation("C01:wrong-response:wkc:iter", format!("tag {tag:#x}: {e:?}")));
+                                            ctx.mon(|m| m.violation(&format!("{P}:wrong-response:wkc:iter"), format!("tag {tag:#x}: {e:?}")));
                                             continue;
                                         }
                                     };
                                     let token = ctx.mon(|m| m.add_holder(slot, me, HolderKind::View));
                                     local.push(HeldView { view, expect: resp_bytes(tag, len), token, slot, age: 0, trimmed: 0 });
                                 }
-                                Err(e) => ctx.mon(|m| m.violation(&format!("C01:response-unreadable:iter:{}", variant(&e)), format!("tag {tag:#x}: {e:?}"))),
+                                Err(e) => ctx.mon(|m| m.violation(&format!("{P}:response-unreadable:iter:{}", variant(&e)), format!("tag {tag:#x}: {e:?}"))),
                             }
                         }
-                        verify_views(ctx, pl, &mut local, shared, "iter");
+                        verify_views(ctx, pl, &mut local, shared, "iter", P);
                         for h in local.iter_mut() {
                             let k = rng.usize_below(h.expect.len() + 4);
                             h.view.trim_front(k);
                             h.trimmed = (h.trimmed + k).min(h.expect.len());
-                            shared.lock().unwrap().res.trims += 1;
+                            lk(shared).res.trims += 1;
                         }
-                        verify_views(ctx, pl, &mut local, shared, "iter-trim");
+                        verify_views(ctx, pl, &mut local, shared, "iter-trim", P);
                         for h in local.drain(..) {
                             ctx.mon(|m| m.remove_holder(h.slot, h.token));
                         }
                         ctx.mon(|m| m.remove_holder(slot, tok_rf));
                         drop(it);
                         if n != accepted.len() {
-                            ctx.mon(|m| m.violation("C01:missing-datagram-in-response", format!("iterator yielded {n} of {}", accepted.len())));
+                            ctx.mon(|m| m.violation(&format!("{P}:missing-datagram-in-response"), format!("iterator yielded {n} of {}", accepted.len())));
                         }
                     }
                 }
             }
         }
 
+        // ---- M-deadline (victims): every transmission of this request byte-identical, at most
+        // 1 + retries of them.
+        if let (Some(d), false) = (&my_deadlines, use_public) {
+            let first_tag = spec.cmds[0].1;
+            let sh = lk(shared);
+            let mine: Vec<&Vec<u8>> = sh.tx_log.iter().filter(|(_, b, _)| b.len() >= 22 && u32::from_le_bytes([b[18], b[19], b[20], b[21]]) == first_tag).map(|(_, b, _)| b).collect();
+            let n = mine.len();
+            let identical = mine.windows(2).all(|w| w[0] == w[1]);
+            let detail = if !identical { Some(format!("first {} then {}", crate::shard::hex(mine[0]), crate::shard::hex(mine.iter().find(|b| **b != mine[0]).unwrap()))) } else { None };
+            drop(sh);
+            lk(shared).res.retransmissions += n.saturating_sub(1) as u64;
+            if let Some(dt) = detail {
+                ctx.mon(|m| m.violation("C06:retransmission-differs", format!("request tag {first_tag:#x}: {n} transmissions, not byte-identical: {dt}")));
+            }
+            if d.retries != usize::MAX && n > 1 + d.retries {
+                ctx.mon(|m| m.violation("C06:too-many-transmissions", format!("request tag {first_tag:#x}: {n} transmissions with {} retries configured", d.retries)));
+            }
+        }
+
         // ---- M-view: verify everything held, trim some, keep some across the next request
-        verify_views(ctx, pl, &mut held, shared, "fresh-or-held");
+        verify_views(ctx, pl, &mut held, shared, "fresh-or-held", P);
         for h in held.iter_mut() {
             if h.age == 1 && rng.chance(1, 2) {
                 // front trim by k in 0..=len+3
                 let k = rng.usize_below(h.expect.len() + 4);
                 h.view.trim_front(k);
                 h.trimmed = (h.trimmed + k).min(h.expect.len());
-                shared.lock().unwrap().res.trims += 1;
+                lk(shared).res.trims += 1;
             }
         }
-        verify_views(ctx, pl, &mut held, shared, "after-trim");
+        verify_views(ctx, pl, &mut held, shared, "after-trim", P);
         let hold = rng.below(100) < cfg.hold_views_pct;
         if hold && r + 1 < cfg.reqs_per_app {
-            shared.lock().unwrap().res.views_held_across_requests += held.len() as u64;
+            lk(shared).res.views_held_across_requests += held.len() as u64;
             release_views!(2);
         } else {
             release_views!(0);
         }
     }
-    verify_views(ctx, pl, &mut held, shared, "final");
+    verify_views(ctx, pl, &mut held, shared, "final", P);
     release_views!(0);
+}
+
+fn lk(m: &Arc<Mutex<Shared>>) -> std::sync::MutexGuard<'_, Shared> {
+    m.lock().unwrap_or_else(|e| e.into_inner())
 }
 
 fn names_of(a: usize) -> String {
